@@ -141,6 +141,7 @@ def r4_unordered_samples(ctx):
 
 
 def run(ctx):
+    ctx.guard("C13.R11", "mutation driver", lambda: r11_mutation_driver(ctx))
     ctx.guard("C13.DRV", "operators execute through their driver", lambda: __import__("initspec").check_delegations(ctx, "C13", 4))
     ctx.guard("C13.INIT", "init installs the configured state", lambda: __import__("initspec").check_for(ctx, "C13"))
     ctx.guard("C13.K17", "constructor fidelity", lambda: __import__("ctor").check_for(ctx, "C13", 57))
@@ -452,24 +453,22 @@ def r5_recombination_driver(ctx, rule="C13.R5"):
     IND = "mahf::problems::individual::Individual"
     bad = []
     n = 0
-    inl = lambda k: k.startswith("mahf::problems::individual::") or k.startswith("<mahf::problems::individual::") or k.startswith("mahf::population::") or "as mahf::population::" in k
+    import statemodel
+    from c04 import StackModel
+    POP_ = statemodel.POPULATIONS
+    inl = lambda k: k.startswith("mahf::problems::individual::") or k.startswith("<mahf::problems::individual::") or k.startswith("mahf::population::") or "as mahf::population::" in k \
+        or k.startswith(POP_ + "::") or statemodel.inline(k)
     for size in range(0, 6):
         npairs = size // 2
         for choice in itertools.product(("None", "Single", "Both"), repeat=npairs):
+          for owner in ((0, 1) if size in (0, 3) else (0,)):
             pop = tuple(Agg("adt", IND, "Individual", [Sym("s%d" % i), some(Sym("o%d" % i))]) for i in range(size))
+            # the REAL population stack (another population underneath), owned by the current or the enclosing scope
+            cells, popsym, sf_ = statemodel.stack_and_rng(F, owner)
+            store = statemodel.Store(F, levels=2, auto=statemodel.by_prefix(F, cells))
 
             def oracle(interp, env, f, args, t, bb, path, choice=choice):
                 k = f.get("key", "")
-                if k in ("mahf::state::State::populations_mut", "mahf::state::State::populations"):
-                    return Sym("populations")
-                if k == "mahf::state::State::random_mut":
-                    return Sym("rng")
-                if k == "mahf::state::common::Populations::pop":
-                    interp.mstate["pops"] = interp.mstate.get("pops", 0) + 1
-                    return Vec("pop")
-                if k == "mahf::state::common::Populations::push":
-                    interp.mstate["pushed"] = interp.mstate.get("pushed", ()) + (args[1],)
-                    return Agg("tuple", None, None, [])
                 if k == "mahf::components::recombination::Recombination::recombine":
                     i = interp.mstate.get("pair", 0)
                     interp.mstate["pair"] = i + 1
@@ -483,8 +482,9 @@ def r5_recombination_driver(ctx, rule="C13.R5"):
                         return Agg("adt", OP, "Single", [Sym("c1(%s)" % tag)])
                     return Agg("adt", OP, "Both", [Agg("array", None, None, [Sym("c1(%s)" % tag), Sym("c2(%s)" % tag)])])
                 return TOP
-            it = install(Interp(fn.body, chain(oracle, coll_oracle, std_oracle), [Sym("component"), Sym("problem"), Sym("state")], facts=F, inline=inl, max_visits=12))
-            it.init_state = {"heap": {"pop": pop}, "next_vec": 0}
+            it = install(Interp(fn.body, chain(oracle, store, StackModel(sf_), coll_oracle, std_oracle), [Sym("component"), Sym("problem"), Sym("state")], facts=F, inline=inl, max_visits=12))
+            it.init_state = {"heap": {"pop": pop, "below": (Agg("adt", IND, "Individual", [Sym("sb"), some(Sym("ob"))]),)}, "next_vec": 0, "stack": (Vec("below"), Vec("pop"))}
+            store.install(it)
             n += 1
             want = []
             for i in range(npairs):
@@ -496,11 +496,16 @@ def r5_recombination_driver(ctx, rule="C13.R5"):
                 if p.end != "return":
                     bad.append((size, choice, "does not return (%s)" % p.end))
                     continue
-                pushed = p.mstate.get("pushed", ())
-                if p.mstate.get("pops", 0) != 1 or len(pushed) != 1:
-                    bad.append((size, choice, "pops %d and pushes %d populations" % (p.mstate.get("pops", 0), len(pushed))))
+                st_ = list(p.mstate.get("stack", ()))
+                names_ = [getattr(x, "vid", repr(x)) for x in st_]
+                held = {ty.split("<")[0].split("::")[-1]: store.holders(p, ty) for ty in store.types()}
+                if any(ls != [owner] for ls in held.values()):
+                    bad.append((size, choice, "leaves %s held by scope level(s) %s; the stack and the generator belong to scope level %d and stay there" % (sorted(held), sorted(held.values()), owner)))
                     continue
-                v = pushed[0]
+                if p.mstate.get("unmodelled") or len(st_) != 2 or names_[0] != "below" or [getattr(x.fields[0], "tag", "?") for x in p.mstate["heap"].get("below", ())] != ["sb"]:
+                    bad.append((size, choice, "leaves the stack as %s (expected the parents replaced by ONE offspring population on top of the untouched population underneath)" % (p.mstate.get("unmodelled") or names_)))
+                    continue
+                v = st_[-1]
                 items = heap_get_path(p, v)
                 got = []
                 stale = False
@@ -591,6 +596,14 @@ def draw_oracle(script, rate, extra=None, self_ty=None, strength=0.5):
         interp.mstate["draws"] = interp.mstate.get("draws", ()) + (script[i],)
         return script[i]
 
+    import statemodel
+    from absint import Agg as _Agg
+    _PH = _Agg("adt", "core::marker::PhantomData", "PhantomData", [])
+    store = statemodel.Store(None, levels=1, auto=lambda ty: {0: _Agg("adt", "mahf::components::mutation::MutationRate", "MutationRate", [rate, _PH])} if ty.startswith("mahf::components::mutation::MutationRate<")
+                             else {0: _Agg("adt", "mahf::components::mutation::MutationStrength", "MutationStrength", [strength, _PH])} if ty.startswith("mahf::components::mutation::MutationStrength<") else None,
+                             newtypes=())
+    store._single_payload = lambda ty: ty.startswith("mahf::components::mutation::Mutation")
+
     def oracle(interp, env, f, args, t, bb, path):
         k = f.get("key", "")
         if k in extra:
@@ -603,20 +616,14 @@ def draw_oracle(script, rate, extra=None, self_ty=None, strength=0.5):
         if k in ("mahf::state::common::Populations::current_mut",):
             from collmodel import Vec
             return Vec("cur", True)
-        if k in ("mahf::state::registry::StateRegistry::borrow", "mahf::state::registry::StateRegistry::get_value", "mahf::state::registry::StateRegistry::borrow_value"):
-            ga = (f.get("gargs") or [""])[0]
+        if k.startswith("mahf::state::registry::StateRegistry::") or k.startswith("mahf::state::registry::entry::"):
+            # the component's parameter state: cells of the typed store (whichever accessor reads them)
+            ga = (f.get("cgargs") or f.get("gargs") or [""])[0] or ""
             if self_ty and ga.startswith("mahf::components::mutation::Mutation") and ga not in ("mahf::components::mutation::MutationRate<%s>" % self_ty, "mahf::components::mutation::MutationStrength<%s>" % self_ty):
                 # the parameter state of ANOTHER instantiation (e.g. the default identifier): this instance never inserted it
                 interp.mstate["foreign_state"] = interp.mstate.get("foreign_state", ()) + (ga,)
                 return "DIVERGE"
-            if ga.startswith("mahf::components::mutation::MutationRate<"):
-                interp.mstate["rate_reads"] = interp.mstate.get("rate_reads", 0) + 1
-                r = Agg("adt", "mahf::components::mutation::MutationRate", "MutationRate", [rate, Sym("phantom")])
-                return r if k.endswith("::borrow") else rate
-            if ga.startswith("mahf::components::mutation::MutationStrength<"):
-                r = Agg("adt", "mahf::components::mutation::MutationStrength", "MutationStrength", [strength, Sym("phantom")])
-                return r if k.endswith("::borrow") else strength
-            return TOP
+            return store(interp, env, f, args, t, bb, path)
         if k == "rand::rng::Rng::gen_bool":
             p_ = load(interp, env, args[1])
             if not isinstance(p_, float):
@@ -800,8 +807,8 @@ def r7_mutation_components(ctx):
                         while j < len(ds) and j < len(gates):
                             gate_ps.append(gates[j])
                             j += 2 if ds[j] else 1
-                    if any(g != rate for g in gate_ps) or ms.get("rate_reads", 0) != 1:
-                        bad.append(where + ("gates with probability %s (reads of the stored rate: %d)" % (list(gates), ms.get("rate_reads", 0)),))
+                    if any(g != rate for g in gate_ps):
+                        bad.append(where + ("gates with probability %s, not with the stored rate %s" % (list(gates), rate),))
                         continue
                     if kind == "perm":
                         fired = [d for d in ms.get("draws", ()) if isinstance(d, bool)]
@@ -1115,3 +1122,66 @@ def r10_de_mutation(ctx):
                     bad.append(label + ("leaves %s; expected the unevaluated mutants %s (base + F * sum of pair differences, one per group)" % (got, want),))
     ctx.check(not bad, "C13.R10", fn.key, "one-mutant-per-group", "y = %s, population of %s: DEMutation %s" % (bad[0] if bad else ("", "", "")), detail="%d scenarios" % n, loc=fn.loc())
     ctx.count("de_mutation_scenarios", n)
+
+
+def r11_mutation_driver(ctx, rule="C13.R11"):
+    """K6 on the `mutation()` driver (the execute body for user-defined `Mutation` implementations) on the real population
+    stack, owned by the current or the enclosing scope: every solution of the TOP population is handed to mutate() exactly
+    once, in order; afterwards the population is back on top (same members, their objective values dropped because their
+    solutions were handed out mutably) and the population underneath is untouched; a failing mutate() returns its error."""
+    import statemodel
+    from c04 import StackModel
+    from absint import Interp, Sym, Agg, TOP, some, NONE, ok, err, std_oracle, chain
+    from collmodel import coll_oracle, Vec, install, load
+    F = ctx.facts
+    fn = F.fn_opt("mahf::components::mutation::mutation")
+    if fn is None:
+        ctx.violation(rule, "mahf::components::mutation::mutation", "anchor", "the mutation driver was not found", kind="anchor-missing")
+        return
+    IND = "mahf::problems::individual::Individual"
+    POP_ = statemodel.POPULATIONS
+    inl = lambda k: k.startswith("mahf::problems::individual::") or k.startswith("<mahf::problems::individual::") or k.startswith("mahf::population::") or "as mahf::population::" in k \
+        or k.startswith(POP_ + "::") or statemodel.inline(k)
+    bad = []
+    n = 0
+    for size in range(0, 4):
+        for owner in (0, 1):
+            for fail_at in [None] + list(range(size)):
+                cells, popsym, sf_ = statemodel.stack_and_rng(F, owner)
+                store = statemodel.Store(F, levels=2, auto=statemodel.by_prefix(F, cells))
+                seen = []
+
+                def oracle(interp, env, f, args, t, bb, path, fail_at=fail_at):
+                    if f.get("key") == "mahf::components::mutation::Mutation::mutate":
+                        s_ = load(interp, env, args[1])
+                        seen.append(getattr(s_, "tag", repr(s_)))
+                        return err(Sym("boom")) if fail_at is not None and len(seen) - 1 == fail_at else ok(Agg("tuple", None, None, []))
+                    return TOP
+                it = install(Interp(fn.body, chain(oracle, store, StackModel(sf_), coll_oracle, std_oracle), [Sym("component"), Sym("problem"), Sym("state")], facts=F, inline=inl, max_visits=14))
+                it.init_state = {"heap": {"pop": tuple(Agg("adt", IND, "Individual", [Sym("s%d" % i), some(Sym("o%d" % i))]) for i in range(size)),
+                                          "below": (Agg("adt", IND, "Individual", [Sym("sb"), some(Sym("ob"))]),)}, "next_vec": 0, "stack": (Vec("below"), Vec("pop"))}
+                store.install(it)
+                n += 1
+                where = "population of %d%s%s" % (size, ", the stack owned by the enclosing scope" if owner else "", "" if fail_at is None else ", mutate() failing at member %d" % fail_at)
+                paths = it.run()
+                if len(paths) != 1 or paths[0].end != "return" or not isinstance(paths[0].ret, Agg):
+                    bad.append((where, "is not decided / does not complete (%s)" % [(p.end, str(p.ret)[:30]) for p in paths]))
+                    continue
+                p = paths[0]
+                held = {ty.split("<")[0].split("::")[-1]: store.holders(p, ty) for ty in store.types()}
+                if any(ls != [owner] for ls in held.values()):
+                    bad.append((where, "leaves %s held by scope level(s) %s; they belong to scope level %d and stay there" % (sorted(held), sorted(held.values()), owner)))
+                    continue
+                if fail_at is not None:
+                    if p.ret.variant != "Err" or seen != ["s%d" % i for i in range(fail_at + 1)]:
+                        bad.append((where, "returns %s after mutating %s (expected the error right after the failing member)" % (p.ret.variant, seen)))
+                    continue
+                names_ = [getattr(x, "vid", repr(x)) for x in p.mstate.get("stack", ())]
+                top = p.mstate["heap"].get(names_[-1], ()) if names_ else ()
+                got = [(getattr(x.fields[0], "tag", "?"), x.fields[1].variant if isinstance(x.fields[1], Agg) else "?") if isinstance(x, Agg) and x.name == IND else ("?", "?") for x in top]
+                if p.ret.variant != "Ok" or seen != ["s%d" % i for i in range(size)]:
+                    bad.append((where, "returns %s after handing %s to mutate() (expected every member of the top population once, in order)" % (p.ret.variant, seen)))
+                elif p.mstate.get("unmodelled") or len(names_) != 2 or names_[0] != "below" or got != [("s%d" % i, "None") for i in range(size)]:
+                    bad.append((where, "leaves the stack %s with top %s (expected the mutated population back on top of `below`, its objective values dropped)" % (p.mstate.get("unmodelled") or names_, got)))
+    ctx.count("mutation_driver_scenarios", n)
+    ctx.check(not bad, rule, fn.key, "every-solution-once-population-back", "%s: the driver %s" % (bad[0] if bad else ("", "")), detail="%d scenarios" % n, loc=fn.loc())
